@@ -299,5 +299,7 @@ func genScanners(c *ctx) {
 	}
 	c.n += total
 	c.nontrivial += total
+	c.sample = append(c.sample, fmt.Sprintf("scanners: %d calls of %d scanners (osc52 %d, detect %d, drag %d, ...): no panic, bounded result", total, len(sc.calls),
+		sc.calls["osc52"], sc.calls["detect-client"]*4, sc.calls["drag"]*4))
 	c.note(true, fmt.Sprintf("scanners: %d calls of %d scanners, no model line (direct oracle: no panic, bounded result)", total, len(sc.calls)))
 }
